@@ -8,7 +8,7 @@ CONSTANTS
   NFlagSets = 1
   SyncLit = FALSE
   Kinds = {"LOGIN", "SELECT", "CLOSE", "UNAUTH", "LOGOUT"}
-  Greetings = {"OK", "PREAUTH"}
+  Greetings = {"PREAUTH"}
   SimDepth = 0
   Count = FALSE
   MaxDepth = 0
